@@ -1,1 +1,1256 @@
-//! (stub — being implemented)
+//! Independent JUMBF box-tree walker + minimal CBOR / COSE_Sign1 span locator (DESIGN §4.3).
+//!
+//! Nothing in here calls the SDK. The layout is ISO 19566-5 (JUMBF) as used by C2PA:
+//!
+//! ```text
+//! box      := LBox(u32 BE) TBox(4) [XLBox(u64 BE) if LBox==1] payload      (LBox==0: box runs to the end of its container)
+//! jumb     := box whose payload is: jumd box, then content boxes (jumb | cbor | json | bfdb | bidb | uuid | jp2c | brob | free | …)
+//! jumd     := box whose payload is: UUID(16) toggles(1) [label NUL-terminated if toggles&2] [id u32 if toggles&4]
+//!                                   [sha256(32) if toggles&8] [private box (c2sh salt) if toggles&16]
+//! uuid box := UUID(16) data
+//! bfdb     := toggles(1) media-type NUL [file-name NUL if toggles&1]
+//! ```
+//!
+//! `walk_store` yields every box (pre-order) with offsets, label path and parent/child links; for a `cbor`
+//! box inside a `c2pa.signature` superbox it also records the byte spans of the COSE_Sign1 elements.
+//! `classify` maps a byte position of the store to what it belongs to. The edit helpers build
+//! structurally edited copies of a store (optionally fixing the length fields of all enclosing boxes).
+
+use serde::{Deserialize, Serialize};
+
+pub const T_JUMB: [u8; 4] = *b"jumb";
+pub const T_JUMD: [u8; 4] = *b"jumd";
+pub const T_CBOR: [u8; 4] = *b"cbor";
+pub const T_JSON: [u8; 4] = *b"json";
+pub const T_UUID: [u8; 4] = *b"uuid";
+pub const T_BFDB: [u8; 4] = *b"bfdb";
+pub const T_BIDB: [u8; 4] = *b"bidb";
+pub const T_BROB: [u8; 4] = *b"brob";
+pub const T_C2SH: [u8; 4] = *b"c2sh";
+pub const T_FREE: [u8; 4] = *b"free";
+pub const T_JP2C: [u8; 4] = *b"jp2c";
+
+/// Half-open byte span `[start, end)`.
+#[derive(Clone, Copy, Debug, PartialEq, Eq, Hash, Serialize, Deserialize)]
+pub struct Span {
+    pub start: usize,
+    pub end: usize,
+}
+
+impl Span {
+    pub fn new(start: usize, end: usize) -> Span {
+        Span { start, end }
+    }
+    pub fn len(&self) -> usize {
+        self.end.saturating_sub(self.start)
+    }
+    pub fn is_empty(&self) -> bool {
+        self.end <= self.start
+    }
+    pub fn contains(&self, pos: usize) -> bool {
+        pos >= self.start && pos < self.end
+    }
+    pub fn intersects(&self, o: &Span) -> bool {
+        self.start < o.end && o.start < self.end && !self.is_empty() && !o.is_empty()
+    }
+}
+
+/// Field layout of a `jumd` description box (absolute offsets).
+#[derive(Clone, Debug, PartialEq, Eq, Serialize, Deserialize)]
+pub struct DescInfo {
+    pub uuid: Span,
+    pub toggles_pos: usize,
+    pub toggles: u8,
+    /// label bytes including the terminating NUL
+    pub label: Option<Span>,
+    pub id: Option<Span>,
+    pub hash: Option<Span>,
+    /// the whole private box (header + payload); for a `c2sh` box the salt is the payload
+    pub private_box: Option<Span>,
+    pub salt: Option<Span>,
+    /// bytes of the description payload that no field accounts for
+    pub trailing: Option<Span>,
+}
+
+/// One entry of the COSE unprotected header map.
+#[derive(Clone, Debug, PartialEq, Eq, Serialize, Deserialize)]
+pub struct CoseEntry {
+    /// text key, or the decimal integer label
+    pub key: String,
+    pub key_span: Span,
+    pub value_span: Span,
+}
+
+/// Byte spans (absolute) of the COSE_Sign1 structure found in a signature `cbor` box.
+#[derive(Clone, Debug, PartialEq, Eq, Serialize, Deserialize)]
+pub struct CoseSpans {
+    /// everything of the CBOR item (tag + array + elements)
+    pub whole: Span,
+    /// tag byte(s) + array header
+    pub framing: Span,
+    /// the protected bstr: CBOR head (`head`) and content bytes (`body`)
+    pub protected_head: Span,
+    pub protected_body: Span,
+    /// the unprotected header map (whole item)
+    pub unprotected: Span,
+    pub unprotected_entries: Vec<CoseEntry>,
+    /// payload item (nil for detached content)
+    pub payload: Span,
+    pub signature_head: Span,
+    pub signature_body: Span,
+    /// bytes of the box payload after the COSE item (normally none)
+    pub trailing: Span,
+}
+
+#[derive(Clone, Debug, PartialEq, Eq, Serialize, Deserialize)]
+pub struct BoxInfo {
+    pub start: usize,
+    /// 8, or 16 with an XLBox
+    pub header_len: usize,
+    /// total length including the header
+    pub len: usize,
+    pub box_type: [u8; 4],
+    /// `jumb`: the label of its description box; `jumd`: its own label
+    pub label: Option<String>,
+    /// label path: `c2pa/urn:c2pa:…/c2pa.assertions/c2pa.hash.data` for superboxes, parent path + `/[type]` for others
+    pub path: String,
+    pub depth: usize,
+    pub parent: Option<usize>,
+    /// indices into the vector returned by `walk_store`
+    pub children: Vec<usize>,
+    /// `jumb`/`jumd`: description UUID; `uuid` box: its UUID
+    pub uuid: Option<[u8; 16]>,
+    pub desc: Option<DescInfo>,
+    pub cose: Option<CoseSpans>,
+    /// true when LBox was 0 (box runs to the end of its container)
+    pub to_end: bool,
+}
+
+impl BoxInfo {
+    pub fn end(&self) -> usize {
+        self.start + self.len
+    }
+    pub fn span(&self) -> Span {
+        Span::new(self.start, self.end())
+    }
+    pub fn header(&self) -> Span {
+        Span::new(self.start, self.start + self.header_len)
+    }
+    pub fn payload(&self) -> Span {
+        Span::new(self.start + self.header_len, self.end())
+    }
+    pub fn type_str(&self) -> String {
+        self.box_type
+            .iter()
+            .map(|b| if b.is_ascii_graphic() { *b as char } else { '?' })
+            .collect()
+    }
+    pub fn is(&self, t: &[u8; 4]) -> bool {
+        &self.box_type == t
+    }
+    /// 4-character ASCII prefix of the description UUID (`c2ma`, `c2cl`, `c2cs`, `c2as`, `cbor`, …)
+    pub fn uuid_tag(&self) -> Option<String> {
+        self.uuid.map(|u| {
+            u[..4]
+                .iter()
+                .map(|b| if b.is_ascii_graphic() { *b as char } else { '?' })
+                .collect()
+        })
+    }
+}
+
+fn be32(b: &[u8], p: usize) -> Option<u32> {
+    b.get(p..p + 4).map(|s| u32::from_be_bytes([s[0], s[1], s[2], s[3]]))
+}
+
+fn be64(b: &[u8], p: usize) -> Option<u64> {
+    b.get(p..p + 8).map(|s| {
+        let mut a = [0u8; 8];
+        a.copy_from_slice(s);
+        u64::from_be_bytes(a)
+    })
+}
+
+/// (header_len, total_len, type, to_end) of the box starting at `pos`, bounded by `limit`.
+fn read_box_header(bytes: &[u8], pos: usize, limit: usize) -> Result<(usize, usize, [u8; 4], bool), String> {
+    if pos + 8 > limit {
+        return Err(format!("box header at {pos} crosses its container end {limit}"));
+    }
+    let l = be32(bytes, pos).ok_or("short")? as u64;
+    let mut t = [0u8; 4];
+    t.copy_from_slice(&bytes[pos + 4..pos + 8]);
+    let (hl, total, to_end) = if l == 1 {
+        if pos + 16 > limit {
+            return Err(format!("XLBox at {pos} crosses its container end {limit}"));
+        }
+        (16usize, be64(bytes, pos + 8).ok_or("short")?, false)
+    } else if l == 0 {
+        (8usize, (limit - pos) as u64, true)
+    } else {
+        (8usize, l, false)
+    };
+    if total < hl as u64 {
+        return Err(format!("box at {pos}: length {total} smaller than its header"));
+    }
+    if total > (limit - pos) as u64 {
+        return Err(format!("box at {pos}: length {total} overruns its container (end {limit})"));
+    }
+    Ok((hl, total as usize, t, to_end))
+}
+
+fn parse_desc(bytes: &[u8], b: &BoxInfo) -> Result<(DescInfo, Option<String>), String> {
+    let p = b.payload();
+    if p.len() < 17 {
+        return Err(format!("jumd at {}: payload shorter than UUID + toggles", b.start));
+    }
+    let uuid = Span::new(p.start, p.start + 16);
+    let toggles_pos = p.start + 16;
+    let toggles = bytes[toggles_pos];
+    let mut cur = toggles_pos + 1;
+    let mut label = None;
+    let mut label_s = None;
+    if toggles & 0x02 != 0 {
+        let nul = bytes[cur..p.end]
+            .iter()
+            .position(|c| *c == 0)
+            .ok_or_else(|| format!("jumd at {}: unterminated label", b.start))?;
+        label_s = Some(String::from_utf8_lossy(&bytes[cur..cur + nul]).to_string());
+        label = Some(Span::new(cur, cur + nul + 1));
+        cur += nul + 1;
+    }
+    let mut id = None;
+    if toggles & 0x04 != 0 {
+        if cur + 4 > p.end {
+            return Err(format!("jumd at {}: id crosses the box end", b.start));
+        }
+        id = Some(Span::new(cur, cur + 4));
+        cur += 4;
+    }
+    let mut hash = None;
+    if toggles & 0x08 != 0 {
+        if cur + 32 > p.end {
+            return Err(format!("jumd at {}: hash crosses the box end", b.start));
+        }
+        hash = Some(Span::new(cur, cur + 32));
+        cur += 32;
+    }
+    let mut private_box = None;
+    let mut salt = None;
+    if toggles & 0x10 != 0 {
+        let (hl, total, t, _) = read_box_header(bytes, cur, p.end)?;
+        private_box = Some(Span::new(cur, cur + total));
+        if t == T_C2SH {
+            salt = Some(Span::new(cur + hl, cur + total));
+        }
+        cur += total;
+    }
+    let trailing = if cur < p.end { Some(Span::new(cur, p.end)) } else { None };
+    Ok((
+        DescInfo { uuid, toggles_pos, toggles, label, id, hash, private_box, salt, trailing },
+        label_s,
+    ))
+}
+
+const MAX_DEPTH: usize = 64;
+
+fn walk_container(
+    bytes: &[u8],
+    out: &mut Vec<BoxInfo>,
+    mut pos: usize,
+    limit: usize,
+    parent: Option<usize>,
+    parent_path: &str,
+    depth: usize,
+) -> Result<(), String> {
+    if depth > MAX_DEPTH {
+        return Err("nesting too deep".into());
+    }
+    while pos < limit {
+        let (hl, total, t, to_end) = read_box_header(bytes, pos, limit)?;
+        let idx = out.len();
+        out.push(BoxInfo {
+            start: pos,
+            header_len: hl,
+            len: total,
+            box_type: t,
+            label: None,
+            path: String::new(),
+            depth,
+            parent,
+            children: vec![],
+            uuid: None,
+            desc: None,
+            cose: None,
+            to_end,
+        });
+        if let Some(p) = parent {
+            out[p].children.push(idx);
+        }
+        let pay_start = pos + hl;
+        let end = pos + total;
+        if t == T_JUMB {
+            // first child must be the description box
+            let (dhl, dtotal, dt, dto_end) = read_box_header(bytes, pay_start, end)?;
+            if dt != T_JUMD {
+                return Err(format!("jumb at {pos}: first child is not jumd"));
+            }
+            let didx = out.len();
+            let mut d = BoxInfo {
+                start: pay_start,
+                header_len: dhl,
+                len: dtotal,
+                box_type: dt,
+                label: None,
+                path: String::new(),
+                depth: depth + 1,
+                parent: Some(idx),
+                children: vec![],
+                uuid: None,
+                desc: None,
+                cose: None,
+                to_end: dto_end,
+            };
+            let (di, label) = parse_desc(bytes, &d)?;
+            let mut u = [0u8; 16];
+            u.copy_from_slice(&bytes[di.uuid.start..di.uuid.end]);
+            d.uuid = Some(u);
+            d.label = label.clone();
+            let private = di.private_box;
+            d.desc = Some(di);
+            let seg = label.clone().unwrap_or_else(|| "?".to_string());
+            let path = if parent_path.is_empty() { seg } else { format!("{parent_path}/{seg}") };
+            d.path = format!("{path}/[jumd]");
+            out.push(d);
+            out[idx].children.push(didx);
+            out[idx].label = label;
+            out[idx].uuid = Some(u);
+            out[idx].path = path.clone();
+            if let Some(pb) = private {
+                // the private (salt) box as a child of the description box
+                let (phl, ptotal, pt, pto_end) = read_box_header(bytes, pb.start, pb.end)?;
+                let pidx = out.len();
+                out.push(BoxInfo {
+                    start: pb.start,
+                    header_len: phl,
+                    len: ptotal,
+                    box_type: pt,
+                    label: None,
+                    path: format!("{path}/[jumd]/[{}]", String::from_utf8_lossy(&pt)),
+                    depth: depth + 2,
+                    parent: Some(didx),
+                    children: vec![],
+                    uuid: None,
+                    desc: None,
+                    cose: None,
+                    to_end: pto_end,
+                });
+                out[didx].children.push(pidx);
+            }
+            walk_container(bytes, out, pay_start + dtotal, end, Some(idx), &path, depth + 1)?;
+        } else {
+            let tname: String = t.iter().map(|b| if b.is_ascii_graphic() { *b as char } else { '?' }).collect();
+            out[idx].path = format!("{parent_path}/[{tname}]");
+            if t == T_UUID && total >= hl + 16 {
+                let mut u = [0u8; 16];
+                u.copy_from_slice(&bytes[pay_start..pay_start + 16]);
+                out[idx].uuid = Some(u);
+            }
+        }
+        pos = end;
+    }
+    Ok(())
+}
+
+/// Walk a manifest store (one or more top-level boxes). Fails on any structural inconsistency
+/// (a box overrunning its container, a superbox without description box, …).
+pub fn walk_store(bytes: &[u8]) -> Result<Vec<BoxInfo>, String> {
+    let mut out = vec![];
+    walk_container(bytes, &mut out, 0, bytes.len(), None, "", 0)?;
+    if out.is_empty() {
+        return Err("empty store".into());
+    }
+    // locate COSE structures
+    for i in 0..out.len() {
+        if out[i].is(&T_CBOR) {
+            if let Some(p) = out[i].parent {
+                let pl = out[p].label.clone().unwrap_or_default();
+                if base_label(&pl) == "c2pa.signature" {
+                    let pay = out[i].payload();
+                    if let Ok(c) = cose_spans(bytes, pay) {
+                        out[i].cose = Some(c);
+                    }
+                }
+            }
+        }
+    }
+    Ok(out)
+}
+
+/// Label without a `__n` instance suffix.
+pub fn base_label(l: &str) -> &str {
+    match l.rfind("__") {
+        Some(i) if l[i + 2..].chars().all(|c| c.is_ascii_digit()) && i + 2 < l.len() => &l[..i],
+        _ => l,
+    }
+}
+
+// ------------------------------------------------------------------------------------------------
+// minimal CBOR
+// ------------------------------------------------------------------------------------------------
+
+/// Head of a CBOR item at `pos`: (major, additional-info argument, head length, indefinite?).
+pub fn cbor_head(b: &[u8], pos: usize, end: usize) -> Result<(u8, u64, usize, bool), String> {
+    if pos >= end {
+        return Err("cbor: unexpected end".into());
+    }
+    let ib = b[pos];
+    let major = ib >> 5;
+    let ai = ib & 0x1f;
+    let need = |n: usize| -> Result<(), String> {
+        if pos + 1 + n > end {
+            Err("cbor: truncated head".to_string())
+        } else {
+            Ok(())
+        }
+    };
+    match ai {
+        0..=23 => Ok((major, ai as u64, 1, false)),
+        24 => {
+            need(1)?;
+            Ok((major, b[pos + 1] as u64, 2, false))
+        }
+        25 => {
+            need(2)?;
+            Ok((major, u16::from_be_bytes([b[pos + 1], b[pos + 2]]) as u64, 3, false))
+        }
+        26 => {
+            need(4)?;
+            Ok((major, be32(b, pos + 1).unwrap() as u64, 5, false))
+        }
+        27 => {
+            need(8)?;
+            Ok((major, be64(b, pos + 1).unwrap(), 9, false))
+        }
+        31 => Ok((major, 0, 1, true)),
+        _ => Err(format!("cbor: reserved additional info {ai} at {pos}")),
+    }
+}
+
+/// End offset of the CBOR item starting at `pos`.
+pub fn cbor_skip(b: &[u8], pos: usize, end: usize, depth: usize) -> Result<usize, String> {
+    if depth > 128 {
+        return Err("cbor: nesting too deep".into());
+    }
+    let (major, arg, hl, indef) = cbor_head(b, pos, end)?;
+    let mut cur = pos + hl;
+    match major {
+        0 | 1 => {
+            if indef {
+                return Err("cbor: indefinite integer".into());
+            }
+            Ok(cur)
+        }
+        2 | 3 => {
+            if indef {
+                loop {
+                    if cur >= end {
+                        return Err("cbor: unterminated indefinite string".into());
+                    }
+                    if b[cur] == 0xff {
+                        return Ok(cur + 1);
+                    }
+                    let (m2, a2, h2, i2) = cbor_head(b, cur, end)?;
+                    if m2 != major || i2 {
+                        return Err("cbor: bad chunk in indefinite string".into());
+                    }
+                    let e = cur.checked_add(h2).and_then(|x| x.checked_add(a2 as usize)).ok_or("cbor: overflow")?;
+                    if e > end {
+                        return Err("cbor: string chunk overruns".into());
+                    }
+                    cur = e;
+                }
+            }
+            let e = cur.checked_add(arg as usize).ok_or("cbor: overflow")?;
+            if arg > (end - cur) as u64 || e > end {
+                return Err("cbor: string overruns".into());
+            }
+            Ok(e)
+        }
+        4 | 5 => {
+            let per = if major == 4 { 1 } else { 2 };
+            if indef {
+                loop {
+                    if cur >= end {
+                        return Err("cbor: unterminated indefinite container".into());
+                    }
+                    if b[cur] == 0xff {
+                        return Ok(cur + 1);
+                    }
+                    for _ in 0..per {
+                        cur = cbor_skip(b, cur, end, depth + 1)?;
+                    }
+                }
+            }
+            if arg > (end - cur) as u64 {
+                return Err("cbor: container count exceeds the input".into());
+            }
+            for _ in 0..arg * per {
+                cur = cbor_skip(b, cur, end, depth + 1)?;
+            }
+            Ok(cur)
+        }
+        6 => {
+            if indef {
+                return Err("cbor: indefinite tag".into());
+            }
+            cbor_skip(b, cur, end, depth + 1)
+        }
+        _ => {
+            if indef {
+                return Err("cbor: stray break".into());
+            }
+            Ok(cur)
+        }
+    }
+}
+
+fn cbor_key_string(b: &[u8], pos: usize, end: usize) -> Result<String, String> {
+    let (major, arg, hl, indef) = cbor_head(b, pos, end)?;
+    if indef {
+        return Ok("?".into());
+    }
+    Ok(match major {
+        0 => format!("{arg}"),
+        1 => format!("-{}", arg as u128 + 1),
+        3 => {
+            let s = pos + hl;
+            let e = (s + arg as usize).min(end);
+            String::from_utf8_lossy(&b[s..e]).to_string()
+        }
+        _ => "?".into(),
+    })
+}
+
+/// Locate the COSE_Sign1 elements in `span` (a tagged or untagged 4-element array).
+pub fn cose_spans(b: &[u8], span: Span) -> Result<CoseSpans, String> {
+    let end = span.end.min(b.len());
+    let mut cur = span.start;
+    // optional tags
+    loop {
+        let (major, _arg, hl, indef) = cbor_head(b, cur, end)?;
+        if major == 6 && !indef {
+            cur += hl;
+        } else {
+            break;
+        }
+    }
+    let (major, arg, hl, indef) = cbor_head(b, cur, end)?;
+    if major != 4 || indef || arg != 4 {
+        return Err("cose: not a 4-element array".into());
+    }
+    cur += hl;
+    let framing = Span::new(span.start, cur);
+    // protected
+    let (m, a, h, i) = cbor_head(b, cur, end)?;
+    if m != 2 || i {
+        return Err("cose: protected is not a definite bstr".into());
+    }
+    let p_end = cbor_skip(b, cur, end, 0)?;
+    let protected_head = Span::new(cur, cur + h);
+    let protected_body = Span::new(cur + h, cur + h + a as usize);
+    cur = p_end;
+    // unprotected
+    let u_start = cur;
+    let (m, a, h, i) = cbor_head(b, cur, end)?;
+    if m != 5 {
+        return Err("cose: unprotected is not a map".into());
+    }
+    let u_end = cbor_skip(b, cur, end, 0)?;
+    let mut entries = vec![];
+    let mut c = cur + h;
+    let mut n = 0u64;
+    loop {
+        if i {
+            if c >= u_end || b[c] == 0xff {
+                break;
+            }
+        } else if n >= a {
+            break;
+        }
+        let ks = c;
+        let ke = cbor_skip(b, c, u_end, 1)?;
+        let ve = cbor_skip(b, ke, u_end, 1)?;
+        entries.push(CoseEntry {
+            key: cbor_key_string(b, ks, ke)?,
+            key_span: Span::new(ks, ke),
+            value_span: Span::new(ke, ve),
+        });
+        c = ve;
+        n += 1;
+    }
+    cur = u_end;
+    // payload
+    let pl_end = cbor_skip(b, cur, end, 0)?;
+    let payload = Span::new(cur, pl_end);
+    cur = pl_end;
+    // signature
+    let (m, a, h, i) = cbor_head(b, cur, end)?;
+    if m != 2 || i {
+        return Err("cose: signature is not a definite bstr".into());
+    }
+    let s_end = cbor_skip(b, cur, end, 0)?;
+    let signature_head = Span::new(cur, cur + h);
+    let signature_body = Span::new(cur + h, cur + h + a as usize);
+    Ok(CoseSpans {
+        whole: Span::new(span.start, s_end),
+        framing,
+        protected_head,
+        protected_body,
+        unprotected: Span::new(u_start, u_end),
+        unprotected_entries: entries,
+        payload,
+        signature_head,
+        signature_body,
+        trailing: Span::new(s_end, span.end),
+    })
+}
+
+// ------------------------------------------------------------------------------------------------
+// classification
+// ------------------------------------------------------------------------------------------------
+
+#[derive(Clone, Debug, PartialEq, Eq, Hash, Serialize, Deserialize)]
+pub enum DescField {
+    Uuid,
+    Toggles,
+    Label,
+    Id,
+    Hash,
+    /// header of the private (salt) box
+    SaltHeader,
+    Salt,
+    Other,
+}
+
+#[derive(Clone, Debug, PartialEq, Eq, Hash, Serialize, Deserialize)]
+pub enum SpanClass {
+    /// payload of the `cbor` box inside the claim superbox
+    ClaimCbor,
+    /// payload of a content box (cbor/json/bfdb/bidb/uuid/…) of an assertion under `c2pa.assertions`
+    AssertionPayload { label: String },
+    /// payload of a content box of an entry of `c2pa.databoxes`
+    DataboxPayload,
+    /// payload of a content box of an entry of `c2pa.credentials`
+    CredentialPayload,
+    /// content of the COSE protected bstr
+    CoseProtected,
+    /// content of the COSE signature bstr
+    CoseSignature,
+    /// value (or key) of an entry of the COSE unprotected map; `key` = `pad`, `sigTst`, `sigTst2`, `rVals`, `x5chain`/`33`, …
+    CoseUnprotected { key: String },
+    /// COSE tag, array head, bstr length heads, map head, payload item, trailing bytes
+    CoseFraming,
+    /// LBox / TBox / XLBox of any box
+    BoxHeader { box_type: String },
+    DescriptionBox { field: DescField },
+    /// payload of a `brob` box (Brotli-compressed manifest) — opaque to this walker
+    Compressed,
+    Other,
+}
+
+impl SpanClass {
+    /// Short stable name for counters and failure signatures.
+    pub fn name(&self) -> String {
+        match self {
+            SpanClass::ClaimCbor => "claim-cbor".into(),
+            SpanClass::AssertionPayload { .. } => "assertion-payload".into(),
+            SpanClass::DataboxPayload => "databox-payload".into(),
+            SpanClass::CredentialPayload => "credential-payload".into(),
+            SpanClass::CoseProtected => "cose-protected".into(),
+            SpanClass::CoseSignature => "cose-signature".into(),
+            SpanClass::CoseUnprotected { key } => {
+                let k: String = key.chars().filter(|c| c.is_ascii_alphanumeric()).take(12).collect();
+                format!("cose-unprotected-{k}")
+            }
+            SpanClass::CoseFraming => "cose-framing".into(),
+            SpanClass::BoxHeader { .. } => "box-header".into(),
+            SpanClass::DescriptionBox { field } => format!("desc-{field:?}").to_lowercase(),
+            SpanClass::Compressed => "compressed".into(),
+            SpanClass::Other => "other".into(),
+        }
+    }
+
+    /// Classes the second sentence of C02 speaks about: a changed claim, assertion (or databox) payload or
+    /// signature. Every byte of these is input to a hash that the claim or the signature commits to.
+    pub fn is_strict(&self) -> bool {
+        matches!(
+            self,
+            SpanClass::ClaimCbor
+                | SpanClass::AssertionPayload { .. }
+                | SpanClass::DataboxPayload
+                | SpanClass::CoseProtected
+                | SpanClass::CoseSignature
+        )
+    }
+}
+
+/// Index of the innermost box containing `pos`.
+pub fn box_at(boxes: &[BoxInfo], pos: usize) -> Option<usize> {
+    let mut best: Option<usize> = None;
+    for (i, b) in boxes.iter().enumerate() {
+        if b.span().contains(pos) {
+            match best {
+                Some(j) if boxes[j].depth >= b.depth => {}
+                _ => best = Some(i),
+            }
+        }
+    }
+    best
+}
+
+/// Ancestors of box `idx`, innermost first (not including `idx`).
+pub fn ancestors(boxes: &[BoxInfo], idx: usize) -> Vec<usize> {
+    let mut v = vec![];
+    let mut cur = boxes[idx].parent;
+    while let Some(p) = cur {
+        v.push(p);
+        cur = boxes[p].parent;
+    }
+    v
+}
+
+/// Role of a content box, derived from the labels of the enclosing superboxes.
+fn content_role(boxes: &[BoxInfo], idx: usize) -> SpanClass {
+    let anc = ancestors(boxes, idx);
+    // anc[0] = the superbox holding the content box, anc[1] = its store, …
+    let lab = |k: usize| -> String {
+        anc.get(k).and_then(|i| boxes[*i].label.clone()).unwrap_or_default()
+    };
+    let own = lab(0);
+    let store = lab(1);
+    if boxes[idx].is(&T_BROB) {
+        return SpanClass::Compressed;
+    }
+    match base_label(&own) {
+        "c2pa.claim" | "c2pa.claim.v2" if boxes[idx].is(&T_CBOR) => return SpanClass::ClaimCbor,
+        _ => {}
+    }
+    match base_label(&store) {
+        "c2pa.assertions" => SpanClass::AssertionPayload { label: own },
+        "c2pa.databoxes" => SpanClass::DataboxPayload,
+        "c2pa.credentials" => SpanClass::CredentialPayload,
+        _ => SpanClass::Other,
+    }
+}
+
+/// What the byte at `pos` belongs to.
+pub fn classify(boxes: &[BoxInfo], pos: usize) -> SpanClass {
+    let Some(i) = box_at(boxes, pos) else {
+        return SpanClass::Other;
+    };
+    let b = &boxes[i];
+    if b.header().contains(pos) {
+        return SpanClass::BoxHeader { box_type: b.type_str() };
+    }
+    if b.is(&T_JUMD) {
+        if let Some(d) = &b.desc {
+            let f = if d.uuid.contains(pos) {
+                DescField::Uuid
+            } else if pos == d.toggles_pos {
+                DescField::Toggles
+            } else if d.label.map(|s| s.contains(pos)).unwrap_or(false) {
+                DescField::Label
+            } else if d.id.map(|s| s.contains(pos)).unwrap_or(false) {
+                DescField::Id
+            } else if d.hash.map(|s| s.contains(pos)).unwrap_or(false) {
+                DescField::Hash
+            } else if d.salt.map(|s| s.contains(pos)).unwrap_or(false) {
+                DescField::Salt
+            } else if d.private_box.map(|s| s.contains(pos)).unwrap_or(false) {
+                DescField::SaltHeader
+            } else {
+                DescField::Other
+            };
+            return SpanClass::DescriptionBox { field: f };
+        }
+        return SpanClass::DescriptionBox { field: DescField::Other };
+    }
+    if let Some(p) = b.parent {
+        if boxes[p].is(&T_JUMD) {
+            // payload of the private box of a description
+            return SpanClass::DescriptionBox {
+                field: if b.is(&T_C2SH) { DescField::Salt } else { DescField::Other },
+            };
+        }
+    }
+    if b.is(&T_JUMB) {
+        // a jumb's own bytes are all inside children; only reachable for gaps
+        return SpanClass::Other;
+    }
+    if let Some(c) = &b.cose {
+        if c.protected_body.contains(pos) {
+            return SpanClass::CoseProtected;
+        }
+        if c.signature_body.contains(pos) {
+            return SpanClass::CoseSignature;
+        }
+        for e in &c.unprotected_entries {
+            if e.key_span.contains(pos) || e.value_span.contains(pos) {
+                return SpanClass::CoseUnprotected { key: e.key.clone() };
+            }
+        }
+        return SpanClass::CoseFraming;
+    }
+    content_role(boxes, i)
+}
+
+/// Classes of all bytes in `[start, end)` (deduplicated, in order of first appearance).
+pub fn classify_span(boxes: &[BoxInfo], start: usize, end: usize) -> Vec<SpanClass> {
+    let mut v: Vec<SpanClass> = vec![];
+    for p in start..end {
+        let c = classify(boxes, p);
+        if !v.contains(&c) {
+            v.push(c);
+        }
+    }
+    v
+}
+
+/// Per-byte class table for a whole store (index = byte offset), plus the distinct classes.
+pub fn class_table(boxes: &[BoxInfo], len: usize) -> (Vec<u16>, Vec<SpanClass>) {
+    let mut classes: Vec<SpanClass> = vec![];
+    let mut tab = vec![0u16; len];
+    for (p, slot) in tab.iter_mut().enumerate() {
+        let c = classify(boxes, p);
+        let k = match classes.iter().position(|x| *x == c) {
+            Some(k) => k,
+            None => {
+                classes.push(c);
+                classes.len() - 1
+            }
+        };
+        *slot = k as u16;
+    }
+    (tab, classes)
+}
+
+/// The manifest (child of the top-level `c2pa` superbox) that contains `pos`: (ordinal, label).
+pub fn manifest_of(boxes: &[BoxInfo], pos: usize) -> Option<(usize, String)> {
+    let mut n = 0;
+    for b in boxes {
+        if b.depth == 1 && b.is(&T_JUMB) {
+            if b.span().contains(pos) {
+                return Some((n, b.label.clone().unwrap_or_default()));
+            }
+            n += 1;
+        }
+    }
+    None
+}
+
+/// First box whose path equals `path`.
+pub fn find_path(boxes: &[BoxInfo], path: &str) -> Option<usize> {
+    boxes.iter().position(|b| b.path == path)
+}
+
+// ------------------------------------------------------------------------------------------------
+// structural edits
+// ------------------------------------------------------------------------------------------------
+
+/// A structural edit of a store, expressed on the box indices of `walk_store(original)`.
+#[derive(Clone, Debug, PartialEq, Eq, Hash, Serialize, Deserialize)]
+pub enum Edit {
+    /// exchange two sibling boxes (same parent)
+    Swap { a: usize, b: usize },
+    /// insert a copy of box `idx` right after it
+    Duplicate { idx: usize, fix: bool },
+    /// insert a copy of box `idx` at the end of superbox `into`
+    CopyInto { idx: usize, into: usize, fix: bool },
+    /// remove box `idx`
+    Delete { idx: usize, fix: bool },
+    /// replace byte `at` (0-based inside the label, NUL excluded) of the label of description box `jumd`
+    LabelChar { jumd: usize, at: usize, to: u8 },
+    /// overwrite byte `at` (0..16) of the UUID of description box `jumd`
+    UuidByte { jumd: usize, at: usize, to: u8 },
+    /// overwrite the toggles byte of description box `jumd`
+    Toggles { jumd: usize, to: u8 },
+    /// add `delta` to the length field of box `idx` without touching its content
+    LenField { idx: usize, delta: i64, fix_parents: bool },
+    /// insert raw bytes as a new last child of superbox `into` (e.g. an unknown or `free` box)
+    InsertRaw { into: usize, raw: Vec<u8>, fix: bool },
+    /// rewrite the header of box `idx` as LBox=1 + XLBox (grows by 8 bytes)
+    ToXlBox { idx: usize, fix: bool },
+    /// set LBox of box `idx` to 0 ("to end of container")
+    ZeroLen { idx: usize },
+}
+
+impl Edit {
+    pub fn kind(&self) -> &'static str {
+        match self {
+            Edit::Swap { .. } => "swap",
+            Edit::Duplicate { .. } => "duplicate",
+            Edit::CopyInto { .. } => "copy-into",
+            Edit::Delete { .. } => "delete",
+            Edit::LabelChar { .. } => "label-char",
+            Edit::UuidByte { .. } => "uuid-byte",
+            Edit::Toggles { .. } => "toggles",
+            Edit::LenField { .. } => "len-field",
+            Edit::InsertRaw { .. } => "insert-raw",
+            Edit::ToXlBox { .. } => "to-xlbox",
+            Edit::ZeroLen { .. } => "zero-len",
+        }
+    }
+}
+
+fn write_len(out: &mut [u8], b: &BoxInfo, shift: isize, new_len: u64) {
+    let s = (b.start as isize + shift) as usize;
+    if b.header_len == 16 {
+        out[s + 8..s + 16].copy_from_slice(&new_len.to_be_bytes());
+    } else if !b.to_end {
+        out[s..s + 4].copy_from_slice(&(new_len as u32).to_be_bytes());
+    }
+}
+
+/// Replace `remove` bytes at `at` by `insert`; when `fix_from` is given, the length fields of that box
+/// and all its ancestors are adjusted by the size difference (they all start at or before `at`).
+fn splice(bytes: &[u8], boxes: &[BoxInfo], at: usize, remove: usize, insert: &[u8], fix_from: Option<usize>) -> Vec<u8> {
+    let mut out = Vec::with_capacity(bytes.len() + insert.len());
+    out.extend_from_slice(&bytes[..at]);
+    out.extend_from_slice(insert);
+    out.extend_from_slice(&bytes[at + remove..]);
+    if let Some(f) = fix_from {
+        let delta = insert.len() as i64 - remove as i64;
+        let mut chain = vec![f];
+        chain.extend(ancestors(boxes, f));
+        for i in chain {
+            let b = &boxes[i];
+            let nl = (b.len as i64 + delta).max(0) as u64;
+            write_len(&mut out, b, 0, nl);
+        }
+    }
+    out
+}
+
+/// Apply `e` to `bytes` (`boxes` = `walk_store(bytes)`); `None` when the edit does not apply.
+pub fn apply_edit(bytes: &[u8], boxes: &[BoxInfo], e: &Edit) -> Option<Vec<u8>> {
+    let get = |i: usize| boxes.get(i);
+    match e {
+        Edit::Swap { a, b } => {
+            let (x, y) = (get(*a)?, get(*b)?);
+            if x.parent != y.parent || a == b {
+                return None;
+            }
+            let (x, y) = if x.start <= y.start { (x, y) } else { (y, x) };
+            if x.end() > y.start {
+                return None;
+            }
+            let mut out = Vec::with_capacity(bytes.len());
+            out.extend_from_slice(&bytes[..x.start]);
+            out.extend_from_slice(&bytes[y.start..y.end()]);
+            out.extend_from_slice(&bytes[x.end()..y.start]);
+            out.extend_from_slice(&bytes[x.start..x.end()]);
+            out.extend_from_slice(&bytes[y.end()..]);
+            Some(out)
+        }
+        Edit::Duplicate { idx, fix } => {
+            let b = get(*idx)?;
+            let copy = bytes[b.start..b.end()].to_vec();
+            Some(splice(bytes, boxes, b.end(), 0, &copy, if *fix { b.parent } else { None }))
+        }
+        Edit::CopyInto { idx, into, fix } => {
+            let b = get(*idx)?;
+            let t = get(*into)?;
+            if !t.is(&T_JUMB) {
+                return None;
+            }
+            let copy = bytes[b.start..b.end()].to_vec();
+            Some(splice(bytes, boxes, t.end(), 0, &copy, if *fix { Some(*into) } else { None }))
+        }
+        Edit::Delete { idx, fix } => {
+            let b = get(*idx)?;
+            b.parent?;
+            Some(splice(bytes, boxes, b.start, b.len, &[], if *fix { b.parent } else { None }))
+        }
+        Edit::LabelChar { jumd, at, to } => {
+            let b = get(*jumd)?;
+            let l = b.desc.as_ref()?.label?;
+            if l.len() < 2 || *at >= l.len() - 1 || *to == 0 {
+                return None;
+            }
+            let mut out = bytes.to_vec();
+            if out[l.start + at] == *to {
+                return None;
+            }
+            out[l.start + at] = *to;
+            Some(out)
+        }
+        Edit::UuidByte { jumd, at, to } => {
+            let b = get(*jumd)?;
+            let u = b.desc.as_ref()?.uuid;
+            if *at >= 16 || bytes[u.start + at] == *to {
+                return None;
+            }
+            let mut out = bytes.to_vec();
+            out[u.start + at] = *to;
+            Some(out)
+        }
+        Edit::Toggles { jumd, to } => {
+            let b = get(*jumd)?;
+            let d = b.desc.as_ref()?;
+            if d.toggles == *to {
+                return None;
+            }
+            let mut out = bytes.to_vec();
+            out[d.toggles_pos] = *to;
+            Some(out)
+        }
+        Edit::LenField { idx, delta, fix_parents } => {
+            let b = get(*idx)?;
+            if *delta == 0 || b.to_end {
+                return None;
+            }
+            let nl = b.len as i64 + delta;
+            if nl < 0 || (b.header_len == 8 && (nl > u32::MAX as i64 || nl == 1 || nl == 0)) {
+                return None;
+            }
+            let mut out = bytes.to_vec();
+            write_len(&mut out, b, 0, nl as u64);
+            if *fix_parents {
+                for i in ancestors(boxes, *idx) {
+                    let p = &boxes[i];
+                    write_len(&mut out, p, 0, (p.len as i64 + delta).max(0) as u64);
+                }
+            }
+            Some(out)
+        }
+        Edit::InsertRaw { into, raw, fix } => {
+            let t = get(*into)?;
+            if !t.is(&T_JUMB) {
+                return None;
+            }
+            Some(splice(bytes, boxes, t.end(), 0, raw, if *fix { Some(*into) } else { None }))
+        }
+        Edit::ToXlBox { idx, fix } => {
+            let b = get(*idx)?;
+            if b.header_len != 8 || b.to_end {
+                return None;
+            }
+            let mut hdr = Vec::with_capacity(16);
+            hdr.extend_from_slice(&1u32.to_be_bytes());
+            hdr.extend_from_slice(&b.box_type);
+            hdr.extend_from_slice(&((b.len + 8) as u64).to_be_bytes());
+            Some(splice(bytes, boxes, b.start, 8, &hdr, if *fix { b.parent } else { None }))
+        }
+        Edit::ZeroLen { idx } => {
+            let b = get(*idx)?;
+            if b.header_len != 8 || b.to_end {
+                return None;
+            }
+            let mut out = bytes.to_vec();
+            out[b.start..b.start + 4].copy_from_slice(&[0, 0, 0, 0]);
+            Some(out)
+        }
+    }
+}
+
+/// Raw bytes of a content box with the given type and payload.
+pub fn make_box(t: &[u8; 4], payload: &[u8]) -> Vec<u8> {
+    let mut v = Vec::with_capacity(8 + payload.len());
+    v.extend_from_slice(&((8 + payload.len()) as u32).to_be_bytes());
+    v.extend_from_slice(t);
+    v.extend_from_slice(payload);
+    v
+}
+
+/// Byte range of the original that an edit changes, inserts at or removes (for classification).
+pub fn edit_span(boxes: &[BoxInfo], e: &Edit) -> Option<Span> {
+    let g = |i: &usize| boxes.get(*i);
+    Some(match e {
+        Edit::Swap { a, b } => {
+            let (x, y) = (g(a)?, g(b)?);
+            Span::new(x.start.min(y.start), x.end().max(y.end()))
+        }
+        Edit::Duplicate { idx, .. } | Edit::Delete { idx, .. } | Edit::CopyInto { idx, .. } => g(idx)?.span(),
+        Edit::LabelChar { jumd, at, .. } => {
+            let l = g(jumd)?.desc.as_ref()?.label?;
+            Span::new(l.start + at, l.start + at + 1)
+        }
+        Edit::UuidByte { jumd, at, .. } => {
+            let u = g(jumd)?.desc.as_ref()?.uuid;
+            Span::new(u.start + at, u.start + at + 1)
+        }
+        Edit::Toggles { jumd, .. } => {
+            let d = g(jumd)?.desc.as_ref()?;
+            Span::new(d.toggles_pos, d.toggles_pos + 1)
+        }
+        Edit::LenField { idx, .. } | Edit::ToXlBox { idx, .. } | Edit::ZeroLen { idx } => g(idx)?.header(),
+        Edit::InsertRaw { into, .. } => {
+            let t = g(into)?;
+            Span::new(t.end(), t.end())
+        }
+    })
+}
+
+/// All structural edits of a store that the C02 design lists, in a deterministic order
+/// (`extra` = false keeps one representative per (edit kind, box) pair; true adds more variants).
+pub fn all_structural_edits(bytes: &[u8], boxes: &[BoxInfo], extra: bool) -> Vec<Edit> {
+    let mut v = vec![];
+    for (i, b) in boxes.iter().enumerate() {
+        // sibling swaps: adjacent siblings, and first with last
+        if !b.children.is_empty() {
+            let kids: Vec<usize> = b.children.iter().copied().filter(|k| !boxes[*k].is(&T_JUMD) || b.is(&T_JUMD)).collect();
+            for w in kids.windows(2) {
+                v.push(Edit::Swap { a: w[0], b: w[1] });
+            }
+            if kids.len() > 2 {
+                v.push(Edit::Swap { a: kids[0], b: kids[kids.len() - 1] });
+            }
+            // the description box with the first content box
+            if b.is(&T_JUMB) && b.children.len() >= 2 {
+                v.push(Edit::Swap { a: b.children[0], b: b.children[1] });
+            }
+        }
+        if b.parent.is_some() {
+            v.push(Edit::Duplicate { idx: i, fix: true });
+            v.push(Edit::Delete { idx: i, fix: true });
+            if extra {
+                v.push(Edit::Duplicate { idx: i, fix: false });
+                v.push(Edit::Delete { idx: i, fix: false });
+            }
+        }
+        if b.is(&T_JUMD) {
+            if let Some(d) = &b.desc {
+                if let Some(l) = d.label {
+                    let n = l.len() - 1;
+                    let positions: Vec<usize> = if extra { (0..n).collect() } else { vec![0, n / 2, n.saturating_sub(1)] };
+                    let mut seen = vec![];
+                    for at in positions {
+                        if at >= n || seen.contains(&at) {
+                            continue;
+                        }
+                        seen.push(at);
+                        let c = bytes[l.start + at];
+                        v.push(Edit::LabelChar { jumd: i, at, to: if c == b'z' { b'y' } else { c.wrapping_add(1).max(1) } });
+                        if extra {
+                            v.push(Edit::LabelChar { jumd: i, at, to: c ^ 0x20 });
+                        }
+                    }
+                }
+                for at in if extra { (0..16).collect::<Vec<_>>() } else { vec![0, 3, 4, 15] } {
+                    let c = bytes[d.uuid.start + at];
+                    v.push(Edit::UuidByte { jumd: i, at, to: c ^ 0x01 });
+                }
+                for bit in 0..8u8 {
+                    v.push(Edit::Toggles { jumd: i, to: d.toggles ^ (1 << bit) });
+                }
+            }
+        }
+        for delta in if extra { vec![-8i64, -1, 1, 8, 256] } else { vec![-1i64, 1, 8] } {
+            v.push(Edit::LenField { idx: i, delta, fix_parents: false });
+            if b.parent.is_some() {
+                v.push(Edit::LenField { idx: i, delta, fix_parents: true });
+            }
+        }
+        v.push(Edit::ToXlBox { idx: i, fix: true });
+        v.push(Edit::ZeroLen { idx: i });
+        if b.is(&T_JUMB) {
+            v.push(Edit::InsertRaw { into: i, raw: make_box(b"free", &[0u8; 4]), fix: true });
+            v.push(Edit::InsertRaw { into: i, raw: make_box(b"zzzz", b"unknown!"), fix: true });
+            if extra {
+                v.push(Edit::InsertRaw { into: i, raw: make_box(b"cbor", &[0xa0]), fix: true });
+                v.push(Edit::InsertRaw { into: i, raw: make_box(b"json", b"{}"), fix: true });
+            }
+        }
+    }
+    // copy each manifest-level box of one manifest into another manifest and each assertion into
+    // another assertion store (cross-manifest transplant)
+    let manifests: Vec<usize> = boxes.iter().enumerate().filter(|(_, b)| b.depth == 1 && b.is(&T_JUMB)).map(|(i, _)| i).collect();
+    for &m in &manifests {
+        for &n in &manifests {
+            if m == n {
+                continue;
+            }
+            for &k in &boxes[m].children {
+                if boxes[k].is(&T_JUMB) {
+                    v.push(Edit::CopyInto { idx: k, into: n, fix: true });
+                }
+            }
+        }
+    }
+    v
+}
+
+#[cfg(test)]
+mod tests {
+    use super::*;
+
+    fn jumd(uuid: &[u8; 16], label: &str, salt: Option<&[u8]>) -> Vec<u8> {
+        let mut p = uuid.to_vec();
+        p.push(if salt.is_some() { 0x13 } else { 0x03 });
+        p.extend_from_slice(label.as_bytes());
+        p.push(0);
+        if let Some(s) = salt {
+            p.extend_from_slice(&make_box(b"c2sh", s));
+        }
+        make_box(b"jumd", &p)
+    }
+
+    fn jumb(uuid: &[u8; 16], label: &str, kids: &[Vec<u8>]) -> Vec<u8> {
+        let mut p = jumd(uuid, label, None);
+        for k in kids {
+            p.extend_from_slice(k);
+        }
+        make_box(b"jumb", &p)
+    }
+
+    #[test]
+    fn walks_and_classifies() {
+        let u = *b"c2pa\x00\x11\x00\x10\x80\x00\x00\xaa\x00\x38\x9b\x71";
+        // COSE_Sign1: tag 18, [h'a10126', {"pad": h'0000'}, nil, h'0102']
+        let cose = vec![0xd2, 0x84, 0x43, 0xa1, 0x01, 0x26, 0xa1, 0x63, b'p', b'a', b'd', 0x42, 0, 0, 0xf6, 0x42, 1, 2];
+        let sig = jumb(&u, "c2pa.signature", &[make_box(b"cbor", &cose)]);
+        let claim = jumb(&u, "c2pa.claim.v2", &[make_box(b"cbor", &[0xa0])]);
+        let a = jumb(&u, "c2pa.assertions", &[jumb(&u, "x.y", &[make_box(b"cbor", &[0xa0])])]);
+        let m = jumb(&u, "urn:c2pa:1", &[a, claim, sig]);
+        let s = jumb(&u, "c2pa", &[m]);
+        let b = walk_store(&s).unwrap();
+        assert_eq!(b[0].path, "c2pa");
+        assert!(b.iter().any(|x| x.path == "c2pa/urn:c2pa:1/c2pa.assertions/x.y"));
+        let sigbox = b.iter().find(|x| x.cose.is_some()).unwrap();
+        let c = sigbox.cose.as_ref().unwrap();
+        assert_eq!(c.protected_body.len(), 3);
+        assert_eq!(c.signature_body.len(), 2);
+        assert_eq!(c.unprotected_entries[0].key, "pad");
+        assert_eq!(classify(&b, c.signature_body.start), SpanClass::CoseSignature);
+        assert_eq!(classify(&b, 0), SpanClass::BoxHeader { box_type: "jumb".into() });
+        let claimbox = b.iter().find(|x| x.path == "c2pa/urn:c2pa:1/c2pa.claim.v2/[cbor]").unwrap();
+        assert_eq!(classify(&b, claimbox.payload().start), SpanClass::ClaimCbor);
+        // every edit yields a store of the expected size and fixed edits re-walk
+        for e in all_structural_edits(&s, &b, true) {
+            if let Some(o) = apply_edit(&s, &b, &e) {
+                match e {
+                    Edit::Duplicate { fix: true, .. } | Edit::Delete { fix: true, .. } | Edit::ToXlBox { fix: true, .. } => {
+                        // deleting a jumd makes the tree invalid, everything else must re-walk
+                        if let Edit::Delete { idx, .. } = e {
+                            if b[idx].is(&T_JUMD) || b[b[idx].parent.unwrap()].is(&T_JUMD) {
+                                continue;
+                            }
+                        }
+                        if let Edit::Duplicate { idx, .. } = e {
+                            if b[b[idx].parent.unwrap()].is(&T_JUMD) {
+                                continue;
+                            }
+                        }
+                        if let Edit::ToXlBox { idx, .. } = e {
+                            if b[b[idx].parent.unwrap_or(0)].is(&T_JUMD) && idx != 0 {
+                                continue;
+                            }
+                        }
+                        walk_store(&o).unwrap_or_else(|x| panic!("{e:?}: {x}"));
+                    }
+                    _ => {}
+                }
+            }
+        }
+    }
+}
